@@ -708,6 +708,9 @@ def _iter_standard_one(ctx, roles, v, kind, info, rules):
                   "the label fed to the transition must be the item just pulled; found %s" % show(labarg), show(labarg))
         ctx.check(b.edge_guards((sbi, some_arm), tbi), "ITER-LABEL", b, "transition-after-pull:" + tag, b.loc(tbi),
                   "the transition must be on the Some arm of the pull")
+        ctx.check(pbi not in b.reach(some_arm, avoid_blocks=[tbi]) and all(r not in b.reach(some_arm, avoid_blocks=[tbi]) for r in b.return_blocks()),
+                  "ITER-LABEL", b, "every-item-stepped:" + tag, b.loc(tbi),
+                  "every pulled item must be fed to the transition (no item may be skipped or dropped without stepping the automaton)")
 
     # ---- output read (ITER-OUT): State::output_pos(states[post-transition state])
     outreads = [(vw, bi, tj) for vw, bi, c, tj in info.fv.calls(lambda c: c.adt == v.S and c.name == "output_pos")]
@@ -972,6 +975,8 @@ def _iter_leftmost_one(ctx, roles, v, info, rules):
             okl = labarg[0] == "payload" and labarg[1][0] == "call" and labarg[1][3] == psite
         ctx.check(okl, "ITER-LABEL", b, "label-from-pull:" + tag, b.loc(tbi),
                   "the label must be the item just pulled; found %s" % show(labarg), show(labarg))
+        ctx.check(pbi not in b.reach(some_arm, avoid_blocks=[tbi]) and b.edge_guards((sbi, some_arm), tbi), "ITER-LABEL", b,
+                  "every-item-stepped:" + tag, b.loc(tbi), "every pulled item must be fed to the transition")
     # ---- the ROOT test on the new state
     eqs = switches_on(root, lambda d: d[0] == "bin" and d[1] in ("Eq", "Ne") and (is_const(d[2], 0) or is_const(d[3], 0)) and
                       any(m[0] == "call" and m[3] == tsite for m in members(d[3] if is_const(d[2], 0) else d[2])))
